@@ -6,7 +6,7 @@ use crate::monitors::c05::member_args;
 use crate::rng::Rng;
 use crate::spec::{arity, VOCAB};
 
-pub const STREAMS: [&str; 10] = ["grammar", "mutate", "args3", "args2", "numeric", "special", "vocab", "multibyte", "longwords", "charsweep"];
+pub const STREAMS: [&str; 12] = ["grammar", "mutate", "args3", "args2", "numeric", "special", "vocab", "multibyte", "longwords", "charsweep", "nested", "resources"];
 
 const HOSTILE: [char; 40] = [
     ' ', '\t', '\n', '\r', '(', ')', '!', ',', '-', '+', '/', '=', '%', '\\', '{', '}', '\'', '"', '0', '7', '8', '9', 'a', 'u', 'r', 'x', 'k', 'M', 's', 'd', ':', '@', '~', '#', ';', '*', '\u{e9}', '\u{1f600}',
@@ -95,6 +95,8 @@ pub fn count(stream: &str, thorough: bool, scale: f64) -> u64 {
         "multibyte" => if thorough { 50_000 } else { 8_000 },
         "longwords" => if thorough { 200_000 } else { 30_000 },
         "charsweep" => return CHARSWEEP_TEMPLATES.len() as u64 * 96,
+        "nested" => if thorough { 20_000 } else { 1_500 },
+        "resources" => if thorough { 20_000 } else { 1_500 },
         _ => 0,
     };
     ((base as f64) * scale).max(1.0) as u64
@@ -239,6 +241,79 @@ pub fn input(seed: u64, stream: &str, i: u64) -> String {
             let k = i % 96;
             let c = if k == 95 { '\u{e9}' } else { (0x20u8 + k as u8) as char };
             t.replacen('@', &c.to_string(), 1)
+        }
+        "nested" => {
+            // nesting up to the stated 64 levels where every level is an operator expression in first-,
+            // last- or middle-clause position: ( ( a , b ) , c ), ( a -o ( b c ) ), ! ( ... ) - a parser that
+            // re-parses a group per level (backtracking without a cut) is exponential in the depth
+            let depth = 1 + r.usize(64);
+            let leafs = ["-true", "-false", "-print", "-name x", "-uid 1", "-type f"];
+            let mut e = leafs[r.usize(leafs.len())].to_string();
+            let style = r.below(4); // 0: always first clause, 1: always last, 2/3: mixed
+            for _ in 0..depth {
+                let l = leafs[r.usize(leafs.len())];
+                let op = ["", " -a", " -o", " ,", " ,", " -or"][r.usize(6)];
+                let first = match style {
+                    0 => true,
+                    1 => false,
+                    _ => r.chance(1, 2),
+                };
+                e = match (first, r.below(8)) {
+                    (_, 0) => format!("! ( {} )", e),
+                    (true, _) => format!("( {}{} {} )", e, op, l),
+                    (false, _) => format!("( {}{} {} )", l, op, e),
+                };
+                if e.len() > 3900 {
+                    break;
+                }
+            }
+            if r.chance(1, 6) {
+                // one parenthesis too few or too many, deep inside
+                let p = e.len() / 2;
+                let cut = (p..e.len()).find(|i| e.is_char_boundary(*i) && e[*i..].starts_with(')')).unwrap_or(e.len() - 1);
+                e.remove(cut);
+            }
+            e
+        }
+        "resources" => {
+            // many distinct matchers and destinations in one expression (identifier numbers and frame tags
+            // pass 9, 15, 63, 127, 255), in both output modes, within 4 KiB
+            let k = match r.below(4) {
+                0 => 8 + r.usize(12),
+                1 => 60 + r.usize(12),
+                2 => 120 + r.usize(20),
+                _ => 20 + r.usize(260),
+            };
+            let framed = r.chance(2, 3);
+            let mut parts: Vec<String> = vec![];
+            let mut len = 0;
+            for j in 0..k {
+                let w = match r.below(if framed { 9 } else { 6 }) {
+                    0 | 1 => format!("-name p{}", j),
+                    2 => format!("-iname q{}", j),
+                    3 => format!("-path r{}", j),
+                    4 => "-print".to_string(),
+                    5 => format!("-name p{}", r.below(k as u64)),
+                    6 => format!("-fprint f{}", j),
+                    7 => format!("-fprint0 f{}", r.below(k as u64)),
+                    _ => format!("-fprintf g{} %p", j),
+                };
+                len += w.len() + 4;
+                if len > 3900 {
+                    break;
+                }
+                parts.push(w);
+                if j + 1 < k {
+                    parts.push(["-o", "-o", ",", "-a"][r.usize(4)].to_string());
+                }
+            }
+            while matches!(parts.last().map(|s| s.as_str()), Some("-o") | Some(",") | Some("-a")) {
+                parts.pop();
+            }
+            if framed && r.chance(1, 2) {
+                parts.push(", -print0".into());
+            }
+            parts.join(" ")
         }
         "longwords" => {
             // long words (up to ~300 bytes) of mixed ASCII / multi-byte characters in keyword and
